@@ -249,7 +249,12 @@ def run(c, facts, tier):
     )
 
     # ------------------------------------------------------------------ literal scanner
-    vb = single_body(b.fn_ir(VEC))
+    vfb = b.fn_ir(VEC)
+    vb = single_body(vfb)
+    vlets = []
+    if vb is None and vfb["t"] == "fnbody" and not vfb["steps"] and not vfb["unknown"] and vfb["tail"] is not None:
+        # value-level lets (named closures, constants) in front of the parser expression: evaluated with it
+        vb, vlets = unwrap(vfb["tail"]), list(vfb["lets"])
     det = "shape of the scanner not recognised: %s" % (peg.show(vb) if vb else "?")
     ok_struct = ok_pair = ok_fold = ok_suffix = None
     sem_det = ""
@@ -264,7 +269,7 @@ def run(c, facts, tier):
         everything = (suffix["t"] == "rep" and suffix["min"] == 0 and suffix["max"] is None and unwrap(suffix["p"])["t"] == "any") or (suffix["t"] == "set" and suffix["cs"] == peg.cs_notin([]) and suffix["min"] == 0 and suffix["max"] is None)
         ok_struct = rep["min"] == 0 and rep["max"] is None and rt["min"] == 0 and rt["max"] is None and unwrap(rt["p"])["t"] == "any" and stopmap == {FIELD: "FormatElement::Field", SPECIAL: "FormatElement::Special"} and everything
         det = "scanner = repeat(0.., repeat_till(0.., any, %s)) then %s" % (sorted(stopmap.items()), "the rest of the word" if everything else peg.show(suffix)[:40])
-        ok_pair, ok_fold, ok_suffix, sem_det = scanner_values(facts, b, vb, rep, rt, suffix)
+        ok_pair, ok_fold, ok_suffix, sem_det = scanner_values(facts, b, vb, rep, rt, suffix, vlets)
     c.ob("C14.literals", VEC, "scanner tries an element before extending the literal at every position", ok_struct, det)
     c.ob("C14.literals", VEC, "a literal before an element is emitted only when non-empty, in order [literal, element]", ok_pair, sem_det or "not evaluated")
     c.ob("C14.literals", VEC, "pairs are concatenated in input order", ok_fold, sem_det or "not evaluated")
@@ -325,7 +330,7 @@ def scanner_parts(g, vb):
     return rep, rt, suffix
 
 
-def scanner_values(facts, b, vb, rep, rt, suffix):
+def scanner_values(facts, b, vb, rep, rt, suffix, lets=()):
     """What the scanner returns, evaluated (vlib/irval.py) for two (text, element) rounds and a suffix, each text / the
     suffix empty or not (8 cases), the elements unknown: the list must be, in order, Literal(text) when the text is not
     empty, then the element, for each round, then Literal(suffix) when the suffix is not empty.
@@ -356,7 +361,7 @@ def scanner_values(facts, b, vb, rep, rt, suffix):
     bad_pair, bad_order, bad_suffix = [], [], []
     try:
         for t0, t1, sf in itertools.product(("", "ab"), ("", "cd"), ("", "ef")):
-            ctx = SC(facts, b, facts.fn(VEC).module)
+            ctx = SC(facts, b, facts.fn(VEC).module).bind_lets(lets)
             ctx.texts, ctx.suffix = [t0, t1], sf
             got = irval.value(vb, ctx)
             want = ([lit(t0)] if t0 else []) + [E[0]] + ([lit(t1)] if t1 else []) + [E[1]] + ([lit(sf)] if sf else [])
